@@ -123,9 +123,11 @@ AllNodes(s) == UNION {Nodes(s, p) : p \in peers}
 NewMax(s1) == [x \in {n.row : n \in AllNodes(s1)} \cup DOMAIN maxv |->
                  LET here == {<<n.m, n.s>> : n \in {k \in AllNodes(s1) : k.row = x}} \cup (IF x \in DOMAIN maxv THEN {maxv[x]} ELSE {})
                  IN CHOOSE v \in here : \A w \in here : v = w \/ Newer(v[1], v[2], w[1], w[2])]
-\* the same version wins everywhere: the newest ever stored, unless the row was deleted somewhere
+\* the same version wins everywhere (that is Converged) and it is a newest one: no version with a later date was ever stored,
+\* unless the row was deleted somewhere.  Versions of the same date are ordered by their signatures only when they meet;
+\* one peer may replace its own version by another of the same millisecond, so the date is what is compared here.
 WrongWinner(s1, mv) == {<<"winner", n.row>> : n \in {k \in AllNodes(s1) : (~\E p \in peers : \E t \in Tombs(s1, p) : t.row = k.row)
-                                                                       /\ <<k.m, k.s>> # mv[k.row]}}
+                                                                       /\ k.m < mv[k.row][1]}}
 NowBad(s1) == (IF Want11 THEN C11Bad(s1, peers) ELSE {})
               \cup (IF Want03 /\ Ev.ev = "quiesce"
                     THEN (IF Ev.quiet THEN (LET dv == Diverged(s1, peers) IN IF dv = {} THEN WrongWinner(s1, NewMax(s1)) ELSE dv)
